@@ -320,7 +320,7 @@ def check(pid, tier, seed, replay_only=None):
             kani_meta = dict(kani=res.get("tools", {}).get("kani"), cbmc=res.get("tools", {}).get("cbmc"),
                              solver="cadical")
             results = {r["harness_id"]: r for r in res.get("verification_results", {}).get("results", [])}
-            stats = {c["harness_id"]: c.get("cbmc_stats", {}) for c in res.get("cbmc", [])}
+            stats = {c["harness_id"]: (c.get("cbmc_stats") or {}) for c in res.get("cbmc", [])}
             for h in hs:
                 r = results.get(h["name"])
                 rec = classify(unit, h, r, workdir)
